@@ -60,6 +60,16 @@ Contexts ==
                    T("@"), T("PutMapping"), N("methodDeclaration"), T("}")>>,
     mapping3 |-> <<T("@"), T("Controller"), T("@"), T("RequestMapping"), T("("), T("value"), T("="), N("elementValue"), T(")"), T("class"), Id, T("{"),
                    T("@"), T("DeleteMapping"), T("("), T("value"), T("="), N("elementValue"), T(")"), N("methodDeclaration"), T("}")>>,
+    \* literals of every class at the very start of an argument list and of a statement's expression
+    litfirst |-> <<T("class"), Id, T("{"), T("double"), Id, T("("), T(")"), T("{"),
+                   Id, T("("), [k |-> "K", v |-> "FLOAT_LITERAL", d |-> 0], T(","), N("expression"), T(")"), T(";"),
+                   Id, T("("), [k |-> "K", v |-> "DECIMAL_LITERAL", d |-> 0], T(")"), T(";"),
+                   Id, T("("), [k |-> "K", v |-> "STRING_LITERAL", d |-> 0], T(","), [k |-> "K", v |-> "CHAR_LITERAL", d |-> 0], T(")"), T(";"),
+                   T("return"), [k |-> "K", v |-> "FLOAT_LITERAL", d |-> 0], T("*"), N("expression"), T(";"), T("}"), T("}")>>,
+    \* an anonymous class whose method creates objects, inside a parameterless method of a class with nothing before it
+    anon     |-> <<T("class"), Id, T("{"), T("void"), Id, T("("), T(")"), T("{"),
+                   T("new"), Id, T("("), T(")"), T("{"), T("void"), Id, T("("), T(")"), T("{"), T("new"), N("creator"), T(";"), N("blockStatement"), T("}"), T("}"), T(";"),
+                   T("}"), T("}")>>,
     params   |-> <<T("class"), Id, T("{"), T("void"), Id, N("formalParameters"), T("{"), T("}"),
                    T("interface"), Id, T("{"), T("void"), Id, N("formalParameters"), T(";"), T("}"), T("}")>>,
     types2   |-> <<T("class"), Id, T("{"), N("typeType"), Id, T(";"), N("typeType"), Id, T("("), T(")"), T("{"), T("}"), T("}")>>,
